@@ -36,6 +36,11 @@ def build(case, copied):
     torch.manual_seed(case["init"])
     d = case["trunk_dim"]
     Tsp = tp.spaces.R1("t") if d == 1 else tp.spaces.R2("t")
+    if case.get("tvars"):
+        # a trunk space of several named variables (declared order); the inputs may arrive in another order
+        Tsp = None
+        for v, dv in case["tvars"]:
+            Tsp = tp.spaces.R1(v) if Tsp is None else Tsp * tp.spaces.R1(v)
     S = tp.spaces.R1("s")
     E = tp.spaces.R1("e") if case["e"] == 1 else tp.spaces.R2("e")
     U = {1: tp.spaces.R1("u"), 2: tp.spaces.R2("u"), 3: tp.spaces.R3("u")}[case["u"]]
@@ -103,6 +108,19 @@ def collection(case, sp, specs, parts=2):
     return res
 
 
+def tpoints(case, sp, x):
+    """Trunk input as Points: columns of x are in the DECLARED order; they are handed over in the order case['tin']."""
+    import torchphysics as tp
+    if not case.get("tvars"):
+        return tp.spaces.Points(x, sp["T"])
+    names = [v for v, _ in case["tvars"]]
+    order = case.get("tin") or names
+    space = None
+    for v in order:
+        space = tp.spaces.R1(v) if space is None else space * tp.spaces.R1(v)
+    return tp.spaces.Points(x[..., [names.index(v) for v in order]], space)
+
+
 def disc_values(case, sp, specs):
     """Our own discretisation: (F, D, e) tensor of the functions at the sampler's points."""
     pts = sp["disc"].sample_points().as_tensor  # (D,1) static grid
@@ -122,11 +140,12 @@ def branch_features(net, case, disc):
 
 
 def trunk_features(twin, case, x):
-    """T[j, c, m] from the plain twin network (no fast path)."""
-    import torchphysics as tp
-    sp = twin.trunk.models[-1].input_space if hasattr(twin.trunk, "models") else twin.trunk.input_space
-    o = twin.trunk(tp.spaces.Points(x, sp))
-    o = o.as_tensor if hasattr(o, "as_tensor") else o
+    """T[j, c, m] computed outside the trunk's forward: the plain twin's layer stack applied to the coordinates in
+    the DECLARED variable order (x holds them in that order), after our own normalisation where the trunk has a
+    NormalizationLayer in front (box [-1, 3] in every coordinate: (x - 1) / 2)."""
+    tr = twin.trunk.models[-1] if hasattr(twin.trunk, "models") else twin.trunk
+    z = (x - 1.0) / 2.0 if case.get("norm_layer") else x
+    o = tr.sequential(z)
     return o.reshape(len(x), case["u"], case["m"])
 
 
@@ -182,7 +201,7 @@ def run_c09(case):
                 F = len(current)
                 layout = op.get("layout", "shared")
                 xin = x if layout == "shared" else x.unsqueeze(0).repeat(F, 1, 1)
-                pin = tp.spaces.Points(xin.clone(), sp["T"])
+                pin = tpoints(case, sp, xin.clone())
                 res = net(pin, branch_inputs=branch_arg) if branch_arg is not None else net(pin)
                 o = res.as_tensor
                 stats["forwards"] = stats.get("forwards", 0) + 1
@@ -200,7 +219,7 @@ def run_c09(case):
                 # invariance under permuting the trunk batch
                 perm = torch.randperm(N, generator=g)
                 xp = x[perm] if layout == "shared" else x[perm].unsqueeze(0).repeat(F, 1, 1)
-                op_ = net(tp.spaces.Points(xp.clone(), sp["T"])).as_tensor
+                op_ = net(tpoints(case, sp, xp.clone())).as_tensor
                 if not torch.allclose(op_, o[:, perm], rtol=1e-4, atol=1e-5):
                     out.append(viol("C09", "invariance", "output-depends-on-batch-order", ""))
                 # ---- R-twin: outputs, derivatives, parameter gradients
@@ -209,7 +228,7 @@ def run_c09(case):
                 res_pair = []
                 for model in (net, twin):
                     xi = (x if layout == "shared" else x.unsqueeze(0).repeat(F, 1, 1)).clone().requires_grad_(True)
-                    y = model(tp.spaces.Points(xi, sp["T"])).as_tensor
+                    y = model(tpoints(case, sp, xi)).as_tensor
                     g1 = torch.autograd.grad(y.sum(), xi, create_graph=True)[0]
                     g2 = torch.autograd.grad(g1.pow(2).sum() + g1.sum(), xi, create_graph=True)[0]
                     loss = (g2 ** 2).sum() + (y ** 2).sum()
@@ -221,7 +240,7 @@ def run_c09(case):
                 plain = []
                 for model in (net, twin):
                     xi = (x if layout == "shared" else x.unsqueeze(0).repeat(F, 1, 1)).clone()
-                    y = model(tp.spaces.Points(xi, sp["T"])).as_tensor
+                    y = model(tpoints(case, sp, xi)).as_tensor
                     model.zero_grad()
                     ((y - 0.3) ** 2).sum().backward(retain_graph=True)
                     plain.append([p.grad.detach().clone() if p.grad is not None else None for p in model.parameters()])
